@@ -143,6 +143,8 @@ def c07(tier):
             if P > 2 and sum(1 for o in ops if o == 0) < P:
                 continue
             out.append(tmr_inst('tmr_bmc_p%d_%s' % (P, ''.join('CDTP'[o] for o in ops)), P, K, 0, ops, weight=1))
+    # a new action due on exactly the tick of an event that is not the head
+    out.append(tmr_inst('tmr_bmc_p3_CCCTT_t2', 3, 5, 0, (0, 0, 0, 2, 2), tmax=2, weight=8, cap_quick=700))
     for ops in (((0, 0, 0, 0), (0, 0, 0, 2, 0)) if tier == 'quick' else ((0, 0, 0, 0), (0, 0, 0, 2, 0), (0, 0, 0, 0, 1))):
         out.append(tmr_inst('tmr_bmc_p4_%s' % ''.join('CDTP'[o] for o in ops), 4, len(ops), 0, ops, tmax=7, weight=8, cap_quick=700))
     # deferred processing: three events fall due one after the other before a single process call
@@ -573,6 +575,7 @@ def c10(tier):
     # long periods at high timer frequencies (period checked in the timer lists), heartbeat chained behind another action of the same tick
     for fq, vs in ((1000000, (70, 66, 1)), (1000000, (65, 6554, 20000)), (10000, (6553, 6554, 60000)), (100000, (700, 1, 655))):
         out.append(hbp_inst('WAW', 2, vals=vs, freq=fq))
+    out.append(hbp_inst('INGCWTTTTTT', 2, vals=(1, 0, 0, 3, 3, 0, 0, 0, 0, 0, 0)))   # new heartbeat due on the tick of a pending timer that is not the head
     out.append(hbp_inst('CWWTTTT', 2, vals=(2, 2, 2, 0, 0, 0, 0)))
     out.append(hbp_inst('CWWTTTT', 2, vals=(3, 3, 3, 0, 0, 0, 0)))
     out.append(hbp_inst('CWTWTTT', 2, vals=(3, 3, 0, 2, 0, 0, 0)))
